@@ -795,3 +795,110 @@ func existsPathAvoidingTo(from, to ssa.Instruction, stop map[ssa.Instruction]boo
 	}
 	return false
 }
+
+// checkSgrAccumulatorSaturates: the decimal accumulator of parseSgrMouse cannot wrap around: what is
+// carried to the next digit is the accumulated value only where it is known to be at most a constant K
+// (and a constant otherwise), with K*10+9 inside a 32-bit int.  A coordinate of twenty digits is far
+// beyond the screen and has to end at the last column, not at the first.
+func checkSgrAccumulatorSaturates(c *Ctx, p *Prog, rule string) {
+	fn := p.Fn("tcell:(*tScreen).parseSgrMouse")
+	if fn == nil {
+		c.Undecided(rule, "parseSgrMouse", "-", "not found")
+		return
+	}
+	var accs []*ssa.BinOp
+	for _, d := range deepInstrs(p, fn, 1, nil) {
+		bo, ok := d.in.(*ssa.BinOp)
+		if !ok || bo.Op != token.ADD {
+			continue
+		}
+		if mul, isM := bo.X.(*ssa.BinOp); isM && mul.Op == token.MUL {
+			if k, isK := constInt(mul.Y); isK && k == 10 {
+				accs = append(accs, bo)
+			}
+		}
+	}
+	if len(accs) == 0 {
+		c.Undecided(rule, "parseSgrMouse:accumulator", p.pos(fn.Pos()), "no val*10 + digit found")
+		return
+	}
+	ok, detail := false, "the accumulated value is carried on as it is"
+	for _, acc := range accs {
+		for _, r := range referrers(acc) {
+			phi, isPhi := r.(*ssa.Phi)
+			if !isPhi {
+				continue
+			}
+			bounded, capped := false, false
+			for i, e := range phi.Edges {
+				gs := rawGuardsOnEdge(phi.Block().Preds[i], phi.Block())
+				if e == ssa.Value(acc) {
+					for _, g := range gs {
+						if bo, isBO := g.Cond.(*ssa.BinOp); isBO && bo.X == ssa.Value(acc) {
+							if k, isK := constInt(bo.Y); isK && k*10+9 < 1<<31 {
+								op := bo.Op
+								if !g.Positive {
+									op = negTok(op)
+								}
+								if op == token.LEQ || op == token.LSS {
+									bounded = true
+								}
+							}
+						}
+					}
+				} else if k, isK := constInt(e); isK && k >= 0 && k*10+9 < 1<<31 {
+					capped = true
+				}
+			}
+			if bounded && capped {
+				ok, detail = true, "above a constant bound the accumulator stays at a constant"
+			}
+		}
+	}
+	c.Check(ok, rule, "parseSgrMouse:accumulator-saturates", p.pos(accs[0].Pos()), detail)
+}
+
+// checkEightBitCSIReachesMouseParsers: the collect loop tries the rune parser before the mouse parsers,
+// and the rune parser takes a byte of 0x80 and above as the start of a character in the screen's
+// charset.  Under a single-byte or 7-bit charset (US-ASCII, ISO 8859-x) the decoder accepts or
+// substitutes 0x9b, so the 8-bit CSI of a mouse report is consumed as text and the rest of the report
+// arrives as keys.  The rule holds when the mouse parsers are tried first or the rune parser leaves
+// 0x9b alone; today neither is the case (known finding: the byte is a lead byte in Shift-JIS, GBK and
+// Big5, so there is no small repair).
+func checkEightBitCSIReachesMouseParsers(c *Ctx, p *Prog, rule string) {
+	collect := collectLoopFn(p)
+	pr := p.Fn("tcell:(*tScreen).parseRune")
+	if collect == nil || pr == nil {
+		c.Undecided(rule, "collect/parseRune", "-", "not found")
+		return
+	}
+	var runeCall, mouseCall ssa.Instruction
+	eachInstr(collect, func(in ssa.Instruction) {
+		if cc := callCommon(in); cc != nil {
+			if h := cc.StaticCallee(); h != nil {
+				switch h.Name() {
+				case "parseRune":
+					runeCall = in
+				case "parseXtermMouse", "parseSgrMouse":
+					if mouseCall == nil {
+						mouseCall = in
+					}
+				}
+			}
+		}
+	})
+	if runeCall == nil || mouseCall == nil {
+		c.Undecided(rule, "collect:parser-order", p.pos(collect.Pos()), "parser calls not found")
+		return
+	}
+	mouseFirst := instrDominates(mouseCall, runeCall)
+	carveOut := false
+	eachInstr(pr, func(in ssa.Instruction) {
+		if bo, ok := in.(*ssa.BinOp); ok && (bo.Op == token.EQL || bo.Op == token.NEQ) {
+			if k, isK := constInt(bo.Y); isK && k == 0x9b {
+				carveOut = true
+			}
+		}
+	})
+	c.Check(mouseFirst || carveOut, rule, "parseRune:8-bit-CSI-not-excluded", p.pos(runeCall.Pos()), fmt.Sprintf("mouse parsers tried before the rune parser: %v; the rune parser leaves 0x9b alone: %v", mouseFirst, carveOut))
+}
